@@ -4,3 +4,5 @@ pub mod rng;
 pub mod out;
 pub mod c07;
 pub mod c08;
+pub mod val;
+pub mod codec;
